@@ -373,7 +373,7 @@ Plan gen(uint64_t seed, int tier) {
   }
   gen_enc_setup(r, p, r.chance(0.5));
   p.ops.push_back(mkop("RXPOL", {r.range(0, 1), r.range(0, 4), r.chance(0.3) ? r.range(1, 4) : 0}));
-  auto push_src = [&]() { p.ops.push_back(mkop("SRC", {r.weighted({1, 0, 4, 2, 6, 3, 1, 1, 2, 0, 0, 0, 4}), r.pick({60, 110, 220, 440, 1000, 3000}), r.pick({30, 100, 300, 500, 900}), r.range(1, 1000), r.pick({0, 300, 600, 2000})})); };
+  auto push_src = [&]() { p.ops.push_back(mkop("SRC", {r.weighted({1, 0, 4, 2, 6, 3, 1, 1, 2, 0, 0, 0, 4, 1, 1, 2}), r.pick({60, 110, 220, 440, 1000, 3000}), r.pick({30, 100, 300, 500, 900}), r.range(1, 1000), r.pick({0, 300, 600, 2000})})); };
   push_src();
   int fidx = r.weighted({1, 1, 4, 8, 3, 3, 1, 1, 1});
   int64_t total48 = (int64_t)(tier ? r.range(3, 15) : r.range(2, 5)) * 48000, t = 0;
